@@ -45,7 +45,7 @@ pub fn translate_target(idx: &Index, reg: &Registry, t: &Target, texts: &BTreeMa
 
 fn dummy_fn(module: &str, self_ty: Option<String>) -> FnEntry {
     let f: syn::ItemFn = syn::parse_str("fn __dummy() {}").unwrap();
-    FnEntry { path: format!("{}::__dummy", module), self_ty, sig: f.sig, block: *f.block, module: module.to_string(), impl_generics: None }
+    FnEntry { path: format!("{}::__dummy", module), self_ty, sig: f.sig, block: *f.block, module: module.to_string(), self_syn: None, impl_generics: None }
 }
 
 fn new_tr<'a>(idx: &'a Index, reg: &'a Registry, cur: &'a FnEntry) -> Tr<'a> {
@@ -318,7 +318,11 @@ fn translate_fn(idx: &Index, reg: &Registry, t: &Target, texts: &BTreeMap<String
                 if r.reference.is_some() && r.mutability.is_some() {
                     tr.mut_self = true;
                 }
-                params.push(("self".into(), Ty::Adt(st, vec![])));
+                let sty = match &f.self_syn {
+                    Some(t) => tr.conv_ty(t),
+                    None => Ty::Adt(st, vec![]),
+                };
+                params.push(("self".into(), sty));
             }
             syn::FnArg::Typed(pt) => {
                 if let syn::Type::Reference(r) = &*pt.ty {
